@@ -54,6 +54,11 @@ BackendWhy(b, o, run, ity) ==
   \cup (IF acc /\ r.st = "ok" /\ ~(o.class = "value" /\ SameVal(o.v, r.v)) THEN {"value_" \o b} ELSE {})
   \cup (IF acc /\ r.st = "fail" /\ ~(o.class = "fail" /\ o.kind \in AllowedKinds(r.why)) THEN {"failclass_" \o b} ELSE {})
   \cup (IF acc /\ r.st = "stuck" THEN {"specstuck_" \o b} ELSE {})
+  \* C18: the canonical rendering (val.String) of the result is the specification's Render
+  \cup (IF acc /\ r.st = "ok" /\ o.class = "value" /\ TextKnown(r.v) /\ "rtext" \in DOMAIN o /\ o.rtext # Render(r.v) THEN {"render_" \o b} ELSE {})
+  \* C18 on the observed answers of a pair program: ==, rendering, set membership, key identity all agree
+  \cup (IF o.class = "value" /\ o.v.k = "list" /\ Len(o.v.els) >= 5 /\ (\A i \in 1..Len(o.v.els) : o.v.els[i].k = "bool")
+           /\ (\E i \in 1..Len(o.v.els) : o.v.els[i].v # o.v.els[1].v) /\ run.acc /\ r.st \in {"ok"} THEN {"sameness_" \o b} ELSE {})
   \cup (IF acc /\ r.st \in {"ok", "fail"} /\ o.class \in {"value", "fail"} /\ LogNorm(o.log) # LogProj(r.log) THEN {"log_" \o b} ELSE {})
 
 Judge(rec) ==
